@@ -921,10 +921,33 @@ def subst_upvars(prog, ckey, e, depth=0):
             if base.k == "arg" and base.a[0] == 1 and x.a[1] < len(ups):
                 return ups[x.a[1]]
         return None
-    out = e.rebuild(fn)
+    out = simplify_projections(e.rebuild(fn))
     if prog.fns[pb.key].get("kind") == "Closure":
         out = subst_upvars(prog, pb.key, out, depth + 1)
     return out
+
+
+def simplify_projections(e):
+    """field-of-aggregate → the operand (after a substitution put a known aggregate under a projection)."""
+    def fn(x):
+        if x.k == "field":
+            base = x.a[0]
+            while base.k in ("deref", "ref"):
+                base = base.a[0]
+            if base.k == "agg" and (base.a[0] == "tuple" or str(base.a[0]).startswith("adt:") or str(base.a[0]).startswith("closure:")):
+                idx = x.a[1]
+                if not isinstance(idx, int):
+                    names = (base.t or {}).get("fields") if base.t else None
+                    if names and str(idx) in [str(n) for n in names]:
+                        idx = [str(n) for n in names].index(str(idx))
+                    elif str(idx).isdigit():
+                        idx = int(idx)
+                    else:
+                        return None
+                if 0 <= idx < len(base.a[1]):
+                    return simplify_projections(base.a[1][idx])
+        return None
+    return e.rebuild(fn)
 
 
 # ---------------------------------------------------------------------------
